@@ -1071,8 +1071,12 @@ def format_quantiles(a_list: list[float]) -> list[str]:
     list[str]
         List of boundaries per quantile
     """
-    # scientific formatting
-    formatted_list = [f"{number:.3e}" for number in a_list]
+    # scientific formatting, increasing precision until distinct quantiles have distinct formats
+    precision = 3
+    formatted_list = [f"{number:.{precision}e}" for number in a_list]
+    while len(set(formatted_list)) < len(set(a_list)) and precision < 17:
+        precision += 1
+        formatted_list = [f"{number:.{precision}e}" for number in a_list]
 
     # stripping whitespaces
     formatted_list = [string.strip() for string in formatted_list]
